@@ -268,6 +268,23 @@ def check_fields(ctx, groups, target):
         bad("unexpected-methods", "methods %s in a schema without instance methods" % sorted(funcs))
     if schema_snap(schema) != snap0:
         bad("schema-changed", "generate_stub changed the schema")
+    # the schema grows after a stub was generated: the next stub must describe the schema as it is now
+    if target != "Config":
+        schema.late_field = cc.IntField()
+        schema.late_virtual = cc.VirtualField(lambda c: 0)
+        cc.instance_method(schema, "late_method")(lambda c, a, *rest, **kw: None)
+        res_late, out_late = gen(obj, name)
+        if res_late[0] != "ok":
+            bad("late-raises", "after adding fields, generate_stub raised %r" % (res_late[1],))
+        else:
+            try:
+                _, anns2, init2, funcs2 = parse_stub(res_late[1])
+                if "late_field" not in (anns2 or []) or "late_virtual" not in (anns2 or []) or "late_method" not in (funcs2 or {}) \
+                        or init2 is None or "late_field" not in fparams(init2)["pos"] or "late_virtual" in fparams(init2)["pos"]:
+                    bad("stale-after-schema-change", "a stub generated after fields were added does not declare them")
+            except SyntaxError as exc:
+                bad("late-syntax", "stub after adding fields is not valid Python: %s" % exc)
+        return
     if set(vars(cfg)) != vars0 or repr(cc.asdict(cfg)) != data0:
         bad("config-changed", "generate_stub changed the configuration (attributes %s)" % sorted(set(vars(cfg)) ^ vars0))
     ctx.traces += 1
